@@ -36,41 +36,53 @@ def build_argv(c, base):
     """returns (argv list, wellformed: bool, reason)"""
     a = []
     wf, why = True, ''
+    lm = c.get('longmask', 0)   # which options are spelled with their long alias (bit k = k-th option below)
+
+    def o(k, short, long_):
+        return long_ if (lm >> k) & 1 else short
 
     def bad(r):
         nonlocal wf, why
         if wf:
             wf, why = False, r
     if c['category'] is not None:
-        a += ['-c', c['category']]
+        a += [o(0, '-c', '--decay-category'), c['category']]
         if c['category'] not in ('dbd', 'background'):
             bad('category')
     else:
         bad('no-category')
     if c['nuclide'] is not None:
         a += [c['nuclide_flag'], c['nuclide']]
-    a += ['-s', str(c['seed']), '-n', str(c['count'])]
+    a += [o(1, '-s', '--seed'), str(c['seed']), o(2, '-n', '--nb-events'), str(c['count'])]
+    if c.get('logging') is not None:
+        a += [o(9, '-g', '--logging'), c['logging']]
+        if c['logging'] not in ('mute', 'verbose', 'debug'):
+            bad('logging')
     if c['seed'] < 0:
         bad('seed')
     if c['count'] < 1:
         bad('count')
     if c['category'] == 'dbd':
         if c['level'] is not None:
-            a += ['-l', str(c['level'])]
+            a += [o(3, '-l', '--level'), str(c['level'])]
             if c['level'] < 0:
                 bad('level')
         if c['mode'] is not None:
-            a += ['-m', str(c['mode'])]
+            a += [o(4, '-m', '--dbd-mode'), str(c['mode'])]
             if not (1 <= c['mode'] <= 24):
                 bad('mode')
         else:
             bad('no-mode')
         if c['emin'] is not None:
-            a += ['-e', repr(c['emin'])]
+            a += [o(5, '-e', '--dbd-emin'), repr(c['emin'])]
+            if c['emin'] < 0:
+                bad('negative-window')
         if c['emax'] is not None:
-            a += ['-E', repr(c['emax'])]
+            a += [o(6, '-E', '--dbd-emax'), repr(c['emax'])]
+            if c['emax'] < 0:
+                bad('negative-window')
     if c['activity'] is not None:
-        a += ['-a', repr(c['activity'])]
+        a += [o(7, '-a', '--activity'), repr(c['activity'])]
         if not (c['activity'] > 0):
             bad('activity')
     if c['mdl'] is not None:
@@ -84,7 +96,7 @@ def build_argv(c, base):
     elif c['extra'] == 'stray-parameter':
         bad('stray-parameter')
     if c['basename_style'] == 'flag':
-        a += ['-b', base]
+        a += [o(8, '-b', '--basename'), base]
     elif c['basename_style'] == 'positional':
         a += [base]
     else:
@@ -149,12 +161,32 @@ class Violation(Exception):
 
 
 def check_line(c, do_kill=False):
+    t_line = time.time()
+    try:
+        return check_line1(c, do_kill)
+    finally:
+        dt = time.time() - t_line
+        if dt > 2.0:
+            STATS.setdefault('slow', []).append((round(dt, 1), ' '.join(build_argv(c, 'B')[0])[:300], do_kill))
+
+
+def check_line1(c, do_kill=False):
     base = os.path.join(WORK, 'o%d' % (STATS['lines'] % 8))
     for ext in ('.d0t', '.d0c', '.ref', '-2.d0t', '-2.d0c'):
         if os.path.exists(base + ext):
             os.remove(base + ext)
     argv, wellformed, why = build_argv(c, base)
     STATS['lines'] += 1
+    # a basename is re-used in practice: every third line finds the complete output of an EARLIER run under its basename (event file with two
+    # records, companion file with other settings and the completion marker).  A run that is refused may leave both files untouched, or must leave
+    # neither records nor marker; an accepted run must replace them
+    stale = STATS['lines'] % 3 == 1 and c.get('basename_style') in ('flag', 'positional')
+    STALE_T = b'0 0 Stale\n1\n1 0 0 0 1\n\n1 0 Stale\n1\n1 0 0 0 1\n\n'
+    STALE_C = 'decay-category=background\nnuclide=Stale\nseed=99\nnb-events=2\n@status=0\n'
+    if stale:
+        open(base + '.d0t', 'wb').write(STALE_T)
+        open(base + '.d0c', 'w').write(STALE_C)
+        lab('stale-output-under-the-basename')
     # ---- expected verdict: well-formed line AND the API accepts the same settings
     expect_accept, reason, toall = False, why, None
     if wellformed:
@@ -183,6 +215,9 @@ def check_line(c, do_kill=False):
     if not expect_accept:
         STATS['refused'] += 1
         lab('refused:' + (why or 'api'))
+        if stale and os.path.exists(base + '.d0t') and open(base + '.d0t', 'rb').read() == STALE_T and info == STALE_C:
+            STATS['nontrivial'].add('R|stale-untouched|' + norm)
+            return      # refused before any file was opened: the earlier run's files are intact and consistent
         if recs:
             raise Violation('refused-but-events', 'request must be refused (%s) but %d event records were written: %s' % (reason, len(recs), ' '.join(argv)))
         if '@status=0' in info:
@@ -191,6 +226,12 @@ def check_line(c, do_kill=False):
         return
     STATS['accepted'] += 1
     lab('accepted:' + str(c['category']))
+    if c['mdl'] is not None:
+        lab('accepted-with-mdl')
+        if any(float(c['mdl'][k]) != int(c['mdl'][k]) for k in ('phi', 'theta', 'aperture')):
+            lab('accepted-with-mdl-decimal-angle')
+    if c.get('longmask'):
+        lab('accepted-with-long-option-names')
     if rc != 0:
         raise Violation('accepted-but-fails', 'the API accepts these settings but bxdecay0-run exits %d: %s\n%s' % (rc, ' '.join(argv), err[-400:]))
     n = c['count']
@@ -252,10 +293,16 @@ def check_line(c, do_kill=False):
         total = int(open(cf).read().strip()) if os.path.exists(cf) else 0
         complete = open(base + '.d0t', 'rb').read()
         STATS['kill_cases'] += 1
+        complete_c = open(base + '.d0c').read()
         for k in range(1, total + 1):
             for ext in ('.d0t', '.d0c'):
                 if os.path.exists(base + ext):
                     os.remove(base + ext)
+            if k % 2:
+                # the basename holds the complete output of an earlier identical run (marker included): whatever the kill point, a marker next
+                # to an event file that is no longer complete is a lie
+                open(base + '.d0t', 'wb').write(complete)
+                open(base + '.d0c', 'w').write(complete_c)
             rck, _ = run_cli(argv, {'LD_PRELOAD': SHIM, 'VERIF_KILL_AT': str(k)})
             STATS['kill_points'] += 1
             inf = open(base + '.d0c').read() if os.path.exists(base + '.d0c') else ''
@@ -270,7 +317,7 @@ VALID_DBD = [('Mo100', 0, 1, None), ('Mo100', 0, 4, None), ('Mo100', 0, 4, (0.5,
              ('Cd106', 0, 9, None), ('Ru96', 0, 12, None), ('Zr96', 0, 1, None), ('Xe136', 1, 16, (0.2, 1.0)), ('Ca48', 1, 3, None), ('Te130', 0, 2, None), ('Ge76', 3, 7, None), ('Cd116', 0, 13, (0.3, None)),
              ('Nd150', 3, 3, None), ('Sn112', 0, 10, (0.1, 0.5)), ('Rn222', 0, 1, None), ('Se82', 0, 19, (None, 1.2)), ('Mo100', 0, 18, None), ('Ce136', 0, 11, None)]
 MUTATIONS = ['bad-category', 'no-category', 'unpublished', 'prefix-extended', 'cross-category', 'no-nuclide', 'bad-seed', 'bad-count', 'bad-level', 'huge-level', 'bad-mode', 'no-mode', 'gA-mode', 'wrong-spin-mode',
-             'inverted-window', 'window-noncapable', 'window-beyond', 'zero-activity', 'negative-activity', 'bad-mdl', 'no-basename', 'unknown-option', 'missing-value', 'stray-parameter']
+             'inverted-window', 'window-noncapable', 'window-beyond', 'zero-activity', 'negative-activity', 'bad-mdl', 'no-basename', 'unknown-option', 'missing-value', 'stray-parameter', 'bad-logging', 'negative-window']
 
 
 def apply_mutation(c, cat, m, pick):
@@ -296,6 +343,8 @@ def apply_mutation(c, cat, m, pick):
     elif m == 'negative-activity': c['activity'] = -1.0
     elif m == 'bad-mdl': c['mdl'] = {'particle': pick((['muon', None, 'e-'])), 'rank': pick(([-2, 0])), 'phi': 0.0, 'theta': 90.0, 'aperture': pick(([400.0, -1.0, 5.0]))}
     elif m == 'no-basename': c['basename_style'] = 'none'
+    elif m == 'bad-logging': c['logging'] = pick((['loud', 'MUTE', '2']))
+    elif cat == 'dbd' and m == 'negative-window': c['emin'], c['emax'], c['window_class'] = pick(([(-0.5, 1.5), (0.5, -1.5), (-0.25, None)])) + ('negative',)
     elif m in ('unknown-option', 'missing-value', 'stray-parameter'):
         c['extra'] = m
         c['missing_opt'] = pick((['-s', '-n', '-N', '-c', '-m', '-l', '-e', '-E', '-a', '-b', '-g', '--pgop-mdl-rank', '--pgop-mdl-particle', '--pgop-mdl-cone-aperture']))
@@ -327,12 +376,16 @@ def lines(draw):
     if draw(st.integers(0, 3)) == 0:
         # real-valued settings are drawn from decimals of at most 5 significant digits (the companion file prints 6)
         c['activity'] = draw(st.sampled_from([1.0, 1e3, 2.5e-3, 37000.0]) | st.builds(lambda m, e: float('%de%d' % (m, e)), st.integers(1, 99999), st.integers(-7, 1)))
-    if draw(st.integers(0, 3)) == 0:
-        dec = lambda lo, hi: st.builds(lambda k, d: round(k / 10.0 ** d, d), st.integers(lo * 100, hi * 100), st.integers(0, 2))
+    if draw(st.integers(0, 1)) == 0:
+        dec = lambda lo, hi: st.builds(lambda k, d: round(k / 10.0 ** d, d), st.integers(lo * 100, hi * 100), st.sampled_from([0, 1, 1, 2, 2]))
         c['mdl'] = {'particle': draw(st.sampled_from(['e-', 'gamma', 'all', '*', 'alpha', 'e+', 'g', 'electron', 'positron', 'a'])), 'rank': draw(st.sampled_from([-1, 0, 1, 3]) | st.integers(-1, 5)),
                     'phi': draw(st.sampled_from([0.0, 45.0, 270.0]) | dec(-360, 720)),
                     'theta': draw(st.sampled_from([0.0, 90.0, 30.0, 180.0]) | dec(0, 180)), 'aperture': draw(st.sampled_from([0.0, 5.0, 60.0, 179.0]) | dec(0, 179))}
     c['basename_style'] = draw(st.sampled_from(['flag', 'positional']))
+    c['longmask'] = draw(st.sampled_from([0, 0, 1023]) | st.integers(0, 1023))
+    c['logging'] = draw(st.sampled_from([None, None, None, 'mute', 'verbose', 'debug']))
+    if draw(st.integers(0, 24)) == 0:
+        c['count'] = draw(st.integers(1000, 1100))   # the driver prints its progress every 1000 events
     nmut = draw(st.sampled_from([0, 0, 0, 0, 0, 1, 1, 1, 2]))
     muts = [draw(st.sampled_from(MUTATIONS)) for _ in range(nmut)]
     for m in muts:
@@ -371,11 +424,22 @@ def systematic_lines():
                 out.append(c)
                 if idx + 1 >= max(used or [1]):
                     break
+    # ... and valid lines that carry EVERY real-valued setting with a decimal value (angles, activity, window bounds), every MDL species spelling and
+    # rank, once with short and once with long option names: a setting that is parsed, converted or reported wrongly shows whatever the seed
+    k = 0
+    for spelling in ('e-', 'gamma', 'all', '*', 'alpha', 'e+', 'g', 'electron', 'positron', 'a'):
+        for cat, nuc, lev, mode, win in (('background', 'Bi214+Po214', None, None, None), ('dbd', 'Mo100', 0, 4, (0.55, 1.45)), ('dbd', 'Cd106', 0, 9, None)):
+            k += 1
+            c = {'extra': None, 'missing_opt': '-s', 'nuclide_class': 'published', 'nuclide_flag': '-N' if k % 2 else '--nuclide', 'seed': 1000 + k, 'count': 4 + k % 5, 'basename_style': 'flag' if k % 3 else 'positional',
+                 'category': cat, 'nuclide': nuc, 'level': lev, 'mode': mode, 'emin': win[0] if win else None, 'emax': win[1] if win else None, 'window_class': 'valid' if win else 'none',
+                 'activity': [None, 2.5e-3, 37000.5][k % 3], 'longmask': 1023 if k % 2 else 0, 'logging': [None, 'mute', 'verbose', 'debug'][k % 4],
+                 'mdl': {'particle': spelling, 'rank': [-1, 0, 1, 2][k % 4], 'phi': [12.5, -112.25, 0.75, 359.5][k % 4], 'theta': [40.25, 90.5, 179.75, 0.5][(k // 2) % 4], 'aperture': [10.75, 0.5, 89.25, 120.5][(k // 3) % 4]}}
+            out.append(c)
     return out
 
 
 max_ex = int(os.environ.get('VERIF_C13_LINES', 5000 if TIER == 'thorough' else 260))
-KILL_EVERY = 40 if TIER == 'thorough' else 60
+KILL_EVERY = 15 if TIER == 'thorough' else 20
 
 
 @seed(SEED)
@@ -383,7 +447,7 @@ KILL_EVERY = 40 if TIER == 'thorough' else 60
 @given(lines())
 def prop(c):
     try:
-        check_line(c, do_kill=(STATS['accepted'] % KILL_EVERY == 3))
+        check_line(c, do_kill=(STATS['accepted'] % KILL_EVERY == 3 and c.get('count', 0) <= 100))   # (every write of a 1000-event run would cost minutes)
     except Violation as v:
         if v.cls == 'harness':
             raise
@@ -434,6 +498,8 @@ def main():
            'counters': {'command_lines': STATS['lines'], 'accepted': STATS['accepted'], 'refused': STATS['refused'], 'kill_point_cases': STATS['kill_cases'], 'kill_points_enumerated': STATS['kill_points']},
            'known': {}, 'nontrivial': sorted(STATS['nontrivial']), 'samples': STATS['samples'], 'failures': failures}
     json.dump(rep, open(OUT, 'w'))
+    for x in sorted(STATS.get('slow', []), reverse=True)[:8]:
+        print('slow line: %.1fs kill=%s %s' % (x[0], x[2], x[1]), file=sys.stderr)
     print('done lines=%d accepted=%d refused=%d kill_points=%d failures=%d %.1fs' % (STATS['lines'], STATS['accepted'], STATS['refused'], STATS['kill_points'], len(failures), time.time() - t0))
     return 0
 
